@@ -473,8 +473,9 @@ SPECS["C14"] = dict(
     technique="Go race detector + recorded call histories checked for linearizability with porcupine + differential for read-only storms",
     rule=("history = 2-16 client goroutines issuing ~200 AddValue/MultipleMatch/NearestMatch calls on 2-5 keys of one fresh stringclassifier.Classifier (lazy search sets); unknown string s_k contains value v_k only, "
           "so MultipleMatch(s_k)/NearestMatch(v_k) report k iff AddValue(k) has taken effect and a second AddValue(k) must fail. Every call is recorded {client, op, key, call, return, result} from one monotonic clock and the "
-          "history is checked offline with porcupine v1.3.0 against a per-key boolean model (partitioned by key, 60 s cap; Unknown = inconclusive). Every fifth case is a read-only storm on a classifier whose search sets "
-          "are still lazy, compared with sequential results. All of it runs in -race binaries (3/10 separate processes, GORACE log parsed, reports de-duplicated by outermost module frames). "
+          "history is checked offline with porcupine v1.3.0 against a per-key boolean model (partitioned by key, 60 s cap; Unknown = inconclusive). One case in six is a read-only storm on a classifier whose search sets "
+          "are still lazy, compared with sequential results; one in six a storm of 2-12 callers on a classifier with 12-48 mutually similar values (every value has candidate ranges in "
+          "every call: values x callers comparisons in flight), which must return (watchdog) and, where the call made alone has no equal confidences, return the same. All of it runs in -race binaries (3/10 separate processes, GORACE log parsed, reports de-duplicated by outermost module frames). "
           "Non-trivial = every history/storm; distinct = (process, case)."),
     assumptions=list(V1_ASSUME) + ["porcupine's verdict is relative to the recorded call/return timestamps (one monotonic clock per process)"],
     floor_evals={"quick": 100, "thorough": 2000},
